@@ -159,6 +159,7 @@ theorem wakeConsumers_rqs (cs : List TaskId) (s s' : State) (r r' : List TaskId)
 @[grind →] theorem taskReject_rqs {s s' : State} {w : Nat} {id : TaskId} {rv : Option Nat} {o : Out} {b : Bool}
     (h : s.taskReject w id rv = .ok (s', o, b)) : s'.rqs = s.rqs := by
   simp only [State.taskReject] at h
+  have := resetMnChecked_rqs
   repeat' (split at h)
   all_goals grind [setTask_rqs, setWorker_rqs]
 
